@@ -23,7 +23,7 @@ PROPS = {
                       "serde's default SerializeMap::serialize_entry (= serialize_key; serialize_value), Vec<T>::serialize "
                       "(serialize_seq(Some(len))), io::Write::write_all, fmt::Formatter adapter of Display: by documented semantics",
                       "lean/SJ/Spec/Recognise.lean (independent recursive-descent recogniser used to check the implementation's bytes) "
-                      "is exercised, not proved sound against Grammar.Derives"],
+                      "is proved sound against Grammar.JsonText (c03_recognise_sound); its completeness is not needed"],
         assumptions=["ExtOK: ext.itoa n = Spec.Number.decimal n; finite floats: Grammar.IsNumber (ext.ryu64 b) / (ext.ryu32 b)",
                      "programs obey the serde contract on length hints (None or Some(exact)); type names are not the private "
                      "$serde_json::private::Number / RawValue tokens (feature-gated special cases, out of scope except Number's own impl)",
@@ -31,14 +31,13 @@ PROPS = {
         partial=["c03_display_partial: Display/{:#} are the two serializers by definition in the model; the fmt adapter is covered by "
                  "the correspondence op `disp` only",
                  "c03_utf8_partial: proved per string (every buffer of format_escaped_str is ASCII or a fragment cut at ASCII bytes); "
-                 "lift to whole programs and a ValidUtf8 conclusion pending the shared Spec.Utf8",
-                 "recognise_sound (Spec.Recognise vs Grammar) not proved"],
+                 "lift to whole programs and a ValidUtf8 conclusion pending the shared Spec.Utf8"],
         technique="Lean 4 theorems over all serializer programs: the transcription of Serializer/Compound/MapKeySerializer with both "
                   "Formatters (exact write_all buffer lists, State / current_indent / has_value bookkeeping) refines a structural "
                   "printer of the data-model image; the printer's output is derivable in the RFC 8259 grammar and denotes the image; "
                   "formatter literals regenerated from src/ser.rs; differential run against the crate with an independent recogniser",
         level_text="Machine-checked Lean 4 theorems (c03_compact, c03_error_iff, c03_pretty_layout, c03_hints, c03_value, "
-                   "c03_no_underflow) state for every serializer program with exact-or-absent length hints and every indent string "
+                   "c03_no_underflow, c03_recognise_sound) state for every serializer program with exact-or-absent length hints and every indent string "
                    "that the modelled serializer either fails exactly when a map key is not string-like (same error class) or emits "
                    "buffers whose concatenation equals the structural compact/pretty layout of the program's data-model image, which "
                    "is derivable in the RFC 8259 grammar and denotes that image; hints do not change the buffers. The byte strings "
@@ -47,7 +46,7 @@ PROPS = {
                    "re-parsed by an independent recogniser and compared with the image.",
         level_note="Trusted: Lean kernel + propext/Classical.choice/Quot.sound; extract.py; harness/driver comparison; itoa/ryu as "
                    "assumed parameters; serde default methods by documented semantics. Partial: Display adapter (correspondence "
-                   "only), UTF-8 validity (per string only), recogniser soundness.",
+                   "only), UTF-8 validity (per string only).",
     ),
     "C18": dict(
         lean_targets=["SJ.Props.C18", "SJ.Audit.C18"],
